@@ -5,4 +5,5 @@ CONSTANTS
  Dev = "readerSkip"
  FixedOrder = TRUE
 INVARIANT RoundTripI
+INVARIANT FastAgrees
 CHECK_DEADLOCK FALSE
